@@ -53,7 +53,7 @@ func (c *Ctx) stateMapWrites(fields ...*types.Var) []mapWrite {
 						if len(x.Rhs) == len(x.Lhs) {
 							val = x.Rhs[i]
 						}
-						out = append(out, mapWrite{fi: fi, node: x, field: f, recv: se.X, key: ie.Index, val: val})
+						out = append(out, mapWrite{fi: fi, node: x, field: f, recv: se.X, key: astx.Expand(fi.Info(), ie.Index), val: val})
 					}
 				}
 			case *ast.ExprStmt:
@@ -66,7 +66,7 @@ func (c *Ctx) stateMapWrites(fields ...*types.Var) []mapWrite {
 					return true
 				}
 				if f := astx.FieldSel(info, se); f != nil && want[f] {
-					out = append(out, mapWrite{fi: fi, node: x, field: f, recv: se.X, key: call.Args[1], delete: true})
+					out = append(out, mapWrite{fi: fi, node: x, field: f, recv: se.X, key: astx.Expand(fi.Info(), call.Args[1]), delete: true})
 				}
 			}
 			return true
@@ -849,12 +849,12 @@ func (c *Ctx) mapWritesIn(fi *load.FuncInfo, n ast.Node, field *types.Var) []map
 				if len(x.Rhs) == len(x.Lhs) {
 					val = x.Rhs[i]
 				}
-				out = append(out, mapWrite{fi: fi, node: x, field: field, recv: se.X, key: ie.Index, val: val})
+				out = append(out, mapWrite{fi: fi, node: x, field: field, recv: se.X, key: astx.Expand(fi.Info(), ie.Index), val: val})
 			}
 		case *ast.ExprStmt:
 			if call, ok := x.X.(*ast.CallExpr); ok && astx.Builtin(info, call) == "delete" && len(call.Args) == 2 {
 				if se, ok := ast.Unparen(call.Args[0]).(*ast.SelectorExpr); ok && astx.FieldSel(info, se) == field {
-					out = append(out, mapWrite{fi: fi, node: x, field: field, recv: se.X, key: call.Args[1], delete: true})
+					out = append(out, mapWrite{fi: fi, node: x, field: field, recv: se.X, key: astx.Expand(fi.Info(), call.Args[1]), delete: true})
 				}
 			}
 		}
